@@ -360,12 +360,27 @@ def units(tier, seed):
     us = [{'harness': 'names'}]
     for a in range(0, 260, 20):
         us.append({'harness': 'bounds', 'slice': (a, a + 20)})
+    # 'every result field named in the result schema is one the client can extract from a report': the real writer -> real client
+    # composite of C10 on the configurations that print the widest set of fields (Ramey model on / off, cogeneration, heat pump)
+    from . import c09
+    pick = [c for c in c09.CONFIGS['quick'] if c[0] in ('electricity', 'cogen-topping', 'heat-pump')][: (3 if tier == 'quick' else 6)]
+    pick += [c for c in c09.CONFIGS['quick'] if c[4].get('ramey') is False][:1]
+    seen = set()
+    for (k, L, T, K, x) in pick:
+        key = json.dumps([k, L, T, K, x], sort_keys=True)
+        if key not in seen:
+            seen.add(key)
+            us.append({'harness': 'client-extracts', 'kind': k, 'L': L, 'T': T, 'K': K, 'variant': x, 'mode': 'pad'})
     return us
 
 
 def run_unit(unit):
     if unit['harness'] == 'names':
         yield from run_names(unit)
+    elif unit['harness'] == 'client-extracts':
+        from . import c10
+        u = {k: v for k, v in unit.items() if k != 'harness'}
+        yield from c10.run_unit(u)
     else:
         yield from run_bounds(unit)
 
